@@ -5,6 +5,8 @@ import (
 	"fmt"
 
 	of "github.com/contiv/libOpenflow/openflow13"
+	"github.com/contiv/libOpenflow/util"
+
 	"vh/fw"
 
 	"vh/lib"
@@ -110,6 +112,9 @@ func c01Eval(c *fw.Ctx, data any) {
 	if !c01Late(c, kind, m) {
 		ok = false
 	}
+	if (m.K == "flow_mod" || m.K == "bundle_add") && c.Index%4 == 1 && !c01RetypedInstr(c, kind, m) {
+		ok = false
+	}
 	if m.K == "mp_request" && !c01Retyped(c, kind, m) {
 		ok = false
 	}
@@ -208,6 +213,41 @@ func c01Retyped(c *fw.Ctx, kind string, m *rec.Rec) bool {
 		}
 		if len(bytes) < 8 || bytes[0] != 4 || bytes[1] != 18 || int(binary.BigEndian.Uint16(bytes[2:4])) != len(bytes) || l0 != len(bytes) || l1 != len(bytes) {
 			c.Violation(kind, "frame", "retyped-header-length", fmt.Sprintf("multipart request built for type %d and then switched to type %d: header %x, Len() %d before / %d after encoding, %d bytes produced", m.U("type"), t, bytes[:minInt(8, len(bytes))], l0, l1, len(bytes)))
+			ok = false
+		}
+	}
+	return ok
+}
+
+// c01RetypedInstr: action-list instructions switched to another of the three action-list types after they were filled.
+func c01RetypedInstr(c *fw.Ctx, kind string, m *rec.Rec) bool {
+	ok := true
+	var msg util.Message
+	var berr error
+	if p, _, _ := fw.Recover(func() { msg, berr = lib.BuildMessage(m) }); p || berr != nil {
+		return true
+	}
+	for _, apply := range retypeInstructions(msg) {
+		var bytes []byte
+		var l0, l1 int
+		var err error
+		var what string
+		p, pv, st := fw.Recover(func() {
+			what = apply()
+			l0 = int(msg.Len())
+			bytes, err = msg.MarshalBinary()
+			l1 = int(msg.Len())
+		})
+		c.Count("retyped_instructions", 1)
+		if p {
+			c.Violation(kind, "panic", "retyped-instruction:"+fw.LibFrame(st), what+": "+pv+"\n"+fw.TrimStack(st))
+			return false
+		}
+		if err != nil {
+			continue
+		}
+		if len(bytes) < 8 || int(binary.BigEndian.Uint16(bytes[2:4])) != len(bytes) || l0 != len(bytes) || l1 != len(bytes) {
+			c.Violation(kind, "frame", "retyped-instruction-header-length", fmt.Sprintf("%s: header %x, Len() %d before / %d after encoding, %d bytes produced", what, bytes[:minInt(8, len(bytes))], l0, l1, len(bytes)))
 			ok = false
 		}
 	}
